@@ -5,12 +5,13 @@ O1 == 0 + (26)
 O2 == O1 + (676)
 O3 == O2 + (NWalks)
 O4 == O3 + (NRare)
-Count == O4
+Count == O4 + NHist
 ItemAt(g) ==
   IF g <= O1 THEN Depth1At(g - 0)
   ELSE IF g <= O2 THEN Depth2At(g - O1)
   ELSE IF g <= O3 THEN WalkAt(g - O2)
-  ELSE RareAt(g - O3)
+  ELSE IF g <= O4 THEN RareAt(g - O3)
+  ELSE HistAt(g - O4)
 VARIABLE n
 INSTANCE GenBase
 =============================================================================
